@@ -27,7 +27,7 @@ ComposeRules == {
   R("compose", "date", "nl", "reject"), R("compose", "date", "fullwidth", "reject"),
   R("compose+label", "label", "nl", "reject"), R("compose+label", "label", "fullwidth", "reject"),
   R("compose", "id", "empty", "reject"), R("compose", "id", "nodate", "reject"), R("compose", "id", "none", "reject"),
-  R("compose", "id", "int", "reject"), R("compose", "id", "variantid", "reject"),     \* a value valid for ANOTHER field called id
+  R("compose", "id", "int", "reject"), R("compose", "id", "variantid", "reject"), R("compose", "id", "fullwidth", "reject"),     \* a value valid for ANOTHER field called id
   R("compose", "respin", "strnum", "reject"), R("compose", "respin", "none", "reject"), R("compose", "respin", "float", "reject"),
   R("compose", "label", "label_ga", "reject"), R("compose", "label", "label_noversion", "reject"),
   R("compose", "label", "label_onepart", "reject"), R("compose", "label", "label_unknown", "reject"),
@@ -116,13 +116,13 @@ TiRules == {
   R("ti.media", "totaldiscs", "onlyone", "na"),
   \* a tree WITHOUT media numbering (both None: valid) gets one junk value that merely looks empty
   R("ti.nomedia", "discnum", "empty", "na"), R("ti.nomedia", "discnum", "zerofloat", "na"), R("ti.nomedia", "discnum", "emptylist", "na"),
-  R("ti.checksums", "paths", "absolute", "reject"),
+  R("ti.checksums", "paths", "absolute", "reject"), R("ti.checksums", "paths", "intkey", "na"),
   \* document-only classes ("doc:" prefix): not expressible on an object, skipped on the write side
   R("ti.checksums", "value", "doc:bare_unknown_length", "reject"), R("ti.checksums", "value", "doc:bare_unknown_length_first", "reject") }
 DiRules == {
   R("di.discinfo", "timestamp", "none", "na"), R("di.discinfo", "timestamp", "zero", "reject"), R("di.discinfo", "timestamp", "str", "reject"),
   R("di.discinfo", "timestamp", "int", "na"),
-  R("di.discinfo", "description", "empty", "reject"), R("di.discinfo", "description", "none", "na"), R("di.discinfo", "description", "int", "na"),
+  R("di.discinfo", "description", "empty", "reject"), R("di.discinfo", "description", "blanks", "na"), R("di.discinfo", "arch", "blanks", "na"), R("di.discinfo", "description", "none", "na"), R("di.discinfo", "description", "int", "na"),
   R("di.discinfo", "arch", "empty", "reject"), R("di.discinfo", "arch", "none", "na"), R("di.discinfo", "arch", "int", "na"),
   R("di.discinfo", "description", "bytes", "na"), R("di.discinfo", "arch", "bytes", "na"),      \* text fields take text only
   R("di.discinfo", "disc_numbers", "emptylist", "na"), R("di.discinfo", "disc_numbers", "none", "na"),
